@@ -63,7 +63,8 @@ CLAIMED = {
                 "immediately and no datagram; never before a contact answered; with plain nodes every waiter resolves true within 11 "
                 "min of a contact becoming responsive after outages of 3 s .. 2 h (continuous or flapping); contacts given as node "
                 "and router, duplicated, silent, error- or garbage-answering never stop API calls from completing - on simulated runs "
-                "of the real node (20 quick / 400 thorough configurations), with handler events replayed through the Coq model.",
+                "of the real node (20 quick / 400 thorough configurations), with handler events replayed through the Coq model. "
+                "Socket layer (model/Socket.v: the demultiplexer between bootstrap exchanges and the handler): c15_socket_deliver_iff_pending, c15_socket_duplicate_goes_to_handler (a second copy of an answer can never reach the exchange again, so make_ready's assertion holds), c15_socket_decodable_not_lost, c15_socket_panic_iff_double_register, c15_socket_no_panic_when_fresh; tied to src/socket.rs by replaying every registration, removal and received datagram of the simulated runs through the model and comparing each routing decision (to the exchange / to the handler / dropped).",
         "ref": "7/C15", "axioms": "none",
         "note_extra": "PARTIAL: the attempt loop (timing of completion) is exercised, not modelled; 'node stays alive' is observed through panics/API liveness of the runs.",
     },
